@@ -14,7 +14,12 @@ import (
 // reported (as a race, a deadlock, a deadlock) deterministically.
 func TestSimrtSelf(t *testing.T) {
 	runBatches(t, "simself", func(t *rapid.T) {
-		variant := uni(t, "variant", 6) // 0 correct, 1 unlocked write, 2 recursive RLock vs writer, 3 Signal where Broadcast is needed, 4 correct channels, 5 done channel never closed
+		variant := uni(t, "variant", 10) // 0 correct, 1 unlocked write, 2 recursive RLock vs writer, 3 Signal where Broadcast is needed, 4 correct channels, 5 done channel never closed, 6-9 goroutines + select
+		if variant >= 6 {
+			spawnSelf(t, variant-6)
+			count("runs", 1)
+			return
+		}
 		if variant >= 4 {
 			chanSelf(t, variant == 5)
 			count("runs", 1)
@@ -173,4 +178,115 @@ func chanSelf(t *rapid.T, neverClose bool) {
 		t.Fatalf("VERIF-INTERNAL simrt self-test: correct channel program reported err=%v races=%d sum=%d total=%d\n%s", err, races, sum, total, text)
 	}
 	count("simself_chan_correct", 1)
+}
+
+// spawnSelf: goroutines started inside a task (simrt.Spawn) and select.
+//
+//	mode 0  correct: a caller fans work out to spawned goroutines, collects the results with a select over a
+//	        result channel and a buffered error channel, relies on BOTH rendezvous edges of unbuffered
+//	        channels (send -> receive and receive -> send completes): no report, right result
+//	mode 1  a spawned goroutine writes a variable the caller reads without synchronisation: race
+//	mode 2  the caller selects (no default) on channels nobody ever serves: deadlock
+//	mode 3  correct, but one spawned goroutine stays parked for ever after the callers returned: a leak,
+//	        not a deadlock
+func spawnSelf(t *rapid.T, mode int) {
+	var (
+		results = make(chan int)      // unbuffered
+		errs    = make(chan error, 4) // buffered
+		never   = make(chan struct{})
+		gate    = make(chan struct{}) // unbuffered: receive -> send-completes edge
+		flag    int                   // written by the receiver before it receives from gate, read by the sender after its send
+		sum     int
+		loose   int
+		got     int
+	)
+	n := 2 + uni(t, "workers", 3)
+	sim := simrt.NewSim(rapidChooser{t}, drawSched(t, 100))
+	sim.Go("caller", func() {
+		for i := 1; i <= n; i++ {
+			i := i
+			simrt.Spawn(func() {
+				if mode == 1 && i == 1 {
+					loose = 7 // no synchronisation with the caller's read
+				}
+				if i%2 == 0 {
+					simrt.ChanSend(errs, error(nil), "w.err")
+				}
+				simrt.ChanSend(results, i, "w.res")
+			}, "spawn")
+		}
+		if mode == 1 {
+			_ = loose // nothing orders this read with the spawned goroutine's write
+		}
+		if mode == 3 {
+			simrt.Spawn(func() { simrt.ChanRecv1(never, "leak.recv") }, "spawn.leak")
+		}
+		for got < n {
+			r := simrt.RecvCase(results)
+			e := simrt.RecvCase(errs)
+			sel := simrt.Select("c.select", false, r, e)
+			switch sel.Index {
+			case 0:
+				v, ok := simrt.SelRecv2(r, sel)
+				if !ok {
+					panic("select receive from an open channel reported !ok")
+				}
+				sum += v
+				got++
+			case 1:
+				_ = simrt.SelRecv1(e, sel)
+			}
+		}
+		if mode == 2 {
+			simrt.Select("c.stuck", false, simrt.RecvCase(never), simrt.SendCase(never, struct{}{}))
+		}
+		// default clause: nothing is ready
+		if sel := simrt.Select("c.default", true, simrt.RecvCase(never)); sel.Index != -1 {
+			panic("select with default took a clause that is not ready")
+		}
+	})
+	sim.Go("gatekeeper", func() {
+		flag = 1
+		simrt.ChanRecv1(gate, "g.recv")
+	})
+	sim.Go("visitor", func() {
+		simrt.ChanSend(gate, struct{}{}, "v.send")
+		if flag != 1 { // ordered by receive -> send completes
+			panic("rendezvous did not order the receiver's earlier write")
+		}
+	})
+	mark := raceBegin()
+	err := sim.Run()
+	races, text := raceEnd(mark)
+	count("simself_runs", 1)
+	want := n * (n + 1) / 2
+	switch mode {
+	case 0, 3:
+		if err != nil || races != 0 || sum != want || sim.Spawned < n {
+			t.Fatalf("VERIF-INTERNAL simrt self-test: correct goroutine/select program (mode %d) reported err=%v races=%d sum=%d want=%d spawned=%d\n%s", mode, err, races, sum, want, sim.Spawned, text)
+		}
+		if mode == 3 {
+			if sim.Leaked != 1 {
+				t.Fatalf("VERIF-INTERNAL simrt self-test: leaked goroutine not counted (leaked=%d)", sim.Leaked)
+			}
+			count("simself_leak_tolerated", 1)
+		} else {
+			count("simself_spawn_select_correct", 1)
+		}
+	case 1:
+		if races > 0 {
+			count("simself_spawn_race_found", 1)
+		} else if simrt.RaceEnabled {
+			count("simself_spawn_race_missed", 1)
+		}
+		if err != nil {
+			t.Fatalf("VERIF-INTERNAL simrt self-test: racy goroutine program reported err=%v", err)
+		}
+	case 2:
+		if _, ok := err.(*simrt.Deadlock); ok {
+			count("simself_select_deadlock_found", 1)
+		} else {
+			t.Fatalf("VERIF-INTERNAL simrt self-test: select on dead channels, but err=%v", err)
+		}
+	}
 }
